@@ -894,7 +894,7 @@ class ObjectDomain(LazyGenerators, EffectDomain):
                                 "operator.ne", "operator.contains", "operator.truth", "operator.getitem", "operator.add", "operator.or_", "operator.and_", "operator.call", "operator.lt", "operator.gt", "operator.le", "operator.ge", "operator.sub",
                                 "sys.exc_info", "sys.exception", "copy.copy", "copy.deepcopy"})
     IMPORTED_BY_NAME = frozenset({"attrgetter", "itemgetter", "methodcaller", "partial", "reduce", "chain", "count", "repeat", "filterfalse", "dropwhile", "takewhile", "islice",
-                                  "accumulate", "starmap", "contains", "is_", "is_not", "not_"})
+                                  "accumulate", "starmap", "contains", "is_", "is_not", "not_", "eq", "ne", "truth", "getitem"})
 
     @staticmethod
     def _imports_name(fr, name):
@@ -918,8 +918,9 @@ class ObjectDomain(LazyGenerators, EffectDomain):
             kws = [k for k, _ in kw]
             if name == "type" and len(pos) == 0:
                 return None
-            if name in self.OPERATOR_EXPR and not kws and len(pos) == self.OPERATOR_EXPR[name][0]:
-                src = f"def _calling_a_builtin({', '.join(params)}):\n    return {self.OPERATOR_EXPR[name][1].format(*params)}\n"   # operator.f(a, b) is the expression it names
+            op_name = name if name in self.OPERATOR_EXPR else "operator." + name
+            if op_name in self.OPERATOR_EXPR and not kws and len(pos) == self.OPERATOR_EXPR[op_name][0]:
+                src = f"def _calling_a_builtin({', '.join(params)}):\n    return {self.OPERATOR_EXPR[op_name][1].format(*params)}\n"   # operator.f(a, b) is the expression it names
             else:
                 src = f"def _calling_a_builtin({', '.join(params + kws)}):\n    return {name}({', '.join(params + [f'{k}={k}' for k in kws])})\n"
             tree = ast.parse(src)
@@ -1472,6 +1473,29 @@ class ObjectDomain(LazyGenerators, EffectDomain):
             receiver = inst[2] if inst is not None else (getattr(self, "root_class", None) or fr.receiver)
             found = self.classes.resolve_method(receiver, name, after=owner) if receiver is not None else (None, None)
             f = found[1] if self._followed(found[0]) and isinstance(found[1], FUNC_TYPES) else None
+            if f is None and receiver is not None:
+                # not a def further up the MRO: a method made in a class body there (name = factory(...)), looked up like any member
+                mro = list(self.classes.mro(receiver))
+                later = mro[mro.index(owner) + 1:] if owner in mro else []
+                obj = inst if inst is not None else ("self",)
+                for c in later:
+                    if c.external or not self._followed(c):
+                        continue
+                    if name in c.attrs and name not in c.methods:
+                        out = []
+                        for r in self._eval_class_expr(interp, c, c.attrs[name], st, fr):
+                            if r.kind == "exc":
+                                out.append(r)
+                                continue
+                            callee = ("partial", r.value, (obj,), ()) if isinstance(r.value, tuple) and r.value[:1] == ("func",) else r.value
+                            out.extend(self.apply(interp, callee, pos, kw, r.state, fr))
+                        return out
+                    if name in self._dynamic_names(interp, c, fr):
+                        got = self._dynamic_lookup(interp, c, name, obj, st, fr)
+                        out = []
+                        for r in got or []:
+                            out.extend([r] if r.kind == "exc" else self.apply(interp, r.value, pos, kw, r.state, fr))
+                        return out
             if f is None:
                 return [val(NONE, st)]   # a method of an external base (object, unittest ...): nothing this model follows
             argvals = self._bind(f, pos, kw, True)
@@ -1641,6 +1665,15 @@ class ObjectDomain(LazyGenerators, EffectDomain):
             return [val(TOP, st)]
         f = self._method(root, name)
         if f is None:
+            # not a def: whatever the classes bind to the name (a method made in a class body, by a loop, by a decorator ...)
+            found = self._root_value_attr(interp, name, st, fr)
+            if found and all(r.kind == "exc" or (isinstance(r.value, tuple) and r.value[:1] and r.value[0] in CALLABLE_TAGS and r.value[:2] != ("method", name)) for r in found):
+                out = []
+                for r in found:
+                    out.extend([r] if r.kind == "exc" else self.apply(interp, r.value, pos, kw, r.state, fr))
+                return out
+            if self.strict_calls:
+                raise Undecided(f"the analysed object's `{name}` is called, and the analysis could not determine what it is")
             return [val(TOP, st)]
         got = self._call_decorated_method(interp, f, ("self",), pos, kw, st, fr)
         if got is not None:
@@ -2034,6 +2067,12 @@ class ObjectDomain(LazyGenerators, EffectDomain):
                         else:
                             out.append(val(TOP, s1))
                 return out
+        if d is not None and "." not in d and "operator." + d in self.OPERATOR_EXPR and not st.has(fr.local(d)) and self._imports_name(fr, d) and len(call.args) == self.OPERATOR_EXPR["operator." + d][0] \
+                and not call.keywords and not any(isinstance(a, ast.Starred) for a in call.args):
+            out = []
+            for r in interp.eval_list(list(call.args), st, fr, share=[True] * len(call.args)):
+                out.extend([r] if r.kind == "exc" else self.call_by_name(interp, "operator." + d, list(r.value), [], r.state, fr))
+            return out
         if d in self.OPERATOR_EXPR and len(call.args) == self.OPERATOR_EXPR[d][0] and not call.keywords and not any(isinstance(a, ast.Starred) for a in call.args) and not st.has(fr.local("operator")):
             out = []
             for r in interp.eval_list(list(call.args), st, fr, share=[True] * len(call.args)):
@@ -2303,6 +2342,23 @@ class ObjectDomain(LazyGenerators, EffectDomain):
                 if got and all(r.kind == "val" and isinstance(r.value, tuple) and r.value[:1] == ("const-fn",) for r in got):
                     return [val(r.value[1], r.state) for r in got]
             # calling the value of an arbitrary expression: f(x)(y), table[k](x), getattr(o, n)(x)
+            if isinstance(f_, ast.Attribute) and isinstance(f_.value, ast.Call) and dotted(f_.value.func) == "super" and not f_.value.args and not f_.value.keywords \
+                    and interp.resolve_callee(call, st, fr, self.classes) is None:
+                # super().m(...) where no def further up the MRO is called m: whatever the classes further up bind to m (a method made in a class body ...)
+                out = []
+                for r in interp.eval(f_, st, fr):
+                    if r.kind == "exc" or not (isinstance(r.value, tuple) and r.value[:1] == ("supermethod",)):
+                        out = None
+                        break
+                    for bad, pos, kw, s2 in self._call_args(interp, call, r.state, fr):
+                        if bad is not None:
+                            out.append(bad)
+                        elif pos is None:
+                            out.append(self._unknown_arguments(call, s2, fr))
+                        else:
+                            out.extend(self.apply(interp, r.value, pos, kw, s2, fr))
+                if out is not None:
+                    return out
             if isinstance(f_, (ast.Call, ast.Subscript, ast.BoolOp, ast.IfExp)) or (isinstance(f_, ast.Attribute) and not attr_chain(f_) and not (dotted(f_) or "").startswith("super()")
                                                              and not any(isinstance(n_, ast.Call) for n_ in ast.walk(f_.value))):
                 vals = interp.eval(f_, st, fr)
